@@ -78,6 +78,13 @@ def mps_variants(rng):
         chi = 0.5 * psi
         out.append(('Mps', 'factor', sym, chi))
         out.append(('Mpo', 'plain', sym, mps.random_mpo(I, D_total=4)))
+        # periodic MPO (only the dictionary formats: the deprecated save_to_dict / hdf5 are not offered for it)
+        Hp = mps.Mpo(4, periodic=True)
+        Ho = mps.random_mpo(I, D_total=4)
+        for n in range(4):
+            Hp[n] = Ho[n]
+        Hp.factor = 0.5
+        out.append(('MpoPBC', 'factor', sym, Hp))
     return out
 
 
@@ -166,7 +173,7 @@ def observe(kind, o, sym):
         legs = [(lg.s, lg.t, lg.D, lg.history()) for lg in o.get_legs()] if not o.isdiag or True else []
         return {'abs': dig((tuple(b.struct), np.asarray(b._data), [(lg.s, lg.t, lg.D) for lg in b.get_legs()], legs, o.isdiag, tuple(o.n))), 'dtype': o.yastn_dtype,
                 'sym': o.config.sym.SYM_ID, 'ferm': repr(o.config.fermionic), 'trans': list(o.trans), 'cons': cons}
-    if kind in ('Mps', 'Mpo'):
+    if kind in ('Mps', 'Mpo', 'MpoPBC'):
         return {'N': o.N, 'nr_phys': o.nr_phys, 'pC': repr(o.pC), 'factor': repr(complex(o.factor)),
                 'sites': [observe('Tensor', o.A[k], sym) for k in sorted(o.A, key=lambda x: repr(x) if isinstance(x, tuple) else '%06d' % x)]}
     if kind == 'Peps':
@@ -191,6 +198,8 @@ def follow_up(kind, orig, rest):
             import yastn.tn.mps as mps
             x, y = mps.vdot(orig, orig), mps.vdot(orig, rest)
             return 'same' if abs(x - y) <= 1e-13 * abs(x) else 'overlap %r vs %r' % (x, y)
+        if kind == 'MpoPBC':
+            return 'same' if type(rest).__name__ == 'MpoPBC' and all((orig[n] - rest[n]).norm() == 0 for n in range(orig.N)) and (orig.to_tensor() - rest.to_tensor()).norm() == 0 else 'site tensors / dense matrix differ'
         if kind == 'Peps':
             return 'same' if all((orig[s] - rest[s]).norm() == 0 for s in orig.geometry.sites()) and rest.geometry == orig.geometry else 'site tensors / geometry differ'
         if kind in ('EnvCTM', 'EnvBP', 'EnvBMPS'):
@@ -337,7 +346,7 @@ def main(tier, seed, replay=None):
     rep.cov['rule'] = ('every terminal state of Serialize.tla (all routes to depth 6) x object variants: tensors (plain, complex, diagonal, hard/meta/nested fused, empty, scalar; lazily transposed '
                        'or not; 5 symmetries), MPS (plain, central block, non-unit factor), MPO, PEPS on 7 lattice types, environments (EnvCTM with projectors, EnvBP, EnvBoundaryMPS after updates); non-trivial = route that restored an object with >= 1 block')
     r = tlc_ok('Serialize', 'Serialize.cfg', workers=1, timeout=900)
-    rep.add_tlc('Serialize (all routes, depth 6, 7 kinds)', r)
+    rep.add_tlc('Serialize (all routes, depth 6, 8 kinds)', r)
     cases = r.prints('CASE')
     if len(cases) < 300:
         raise Machinery('too few serialisation cases parsed: %d' % len(cases))
@@ -352,7 +361,7 @@ def main(tier, seed, replay=None):
     for _, kind, steps, out, lazy0, lazyf in cases:
         if kind == 'Tensor':
             objs = [(v, sym, ferm, o) for v, sym, ferm, o in tv]
-        elif kind in ('Mps', 'Mpo'):
+        elif kind in ('Mps', 'Mpo', 'MpoPBC'):
             objs = [(v, sym, False, o) for k, v, sym, o in mv if k == kind]
         elif kind in ('EnvCTM', 'EnvBP', 'EnvBMPS'):
             objs = [(v, sym, True, o) for k, v, sym, o in envv if k == kind]
@@ -459,6 +468,10 @@ def main(tier, seed, replay=None):
     rep.cov['states'] += sum(x.distinct for x in res)
     rep.cov['transitions'] += sum(x.generated for x in res)
     rep.cov['traces_validated_against_impl'] = len(allev)
+    byk = {}
+    for e in evs:
+        byk.setdefault(e['kind'], [0, 0])[0 if e['obs']['out'] == 'restored' else 1] += 1
+    rep.cov['parts']['routes_by_kind (restored / rejected)'] = byk
     rep.cov['evaluations'] = len(allev)
     rep.cov['distinct_nontrivial'] = sum(1 for e in evs if e['obs']['out'] == 'restored')
     rep.cov['parts'].update({'spec_cases': len(cases), 'routes_replayed': len(evs), 'restored': sum(1 for e in evs if e['obs']['out'] == 'restored'),
@@ -466,5 +479,5 @@ def main(tier, seed, replay=None):
     rep.sample(evs[len(evs) // 2])
     rep.sample({k: (v if not isinstance(v, list) else v[:8]) for k, v in vev[0].items()})
     rep.cov['exhaustive'] = (tier == 'thorough')
-    rep.assumptions += ['MpoPBC, Peps2Layers and DoublePepsTensor are not among the serialised kinds', 'quick tier replays a seeded 25% of (case x variant)']
+    rep.assumptions += ['Peps2Layers and DoublePepsTensor are not among the serialised kinds', 'quick tier replays a seeded 25% of (case x variant)']
     return rep.finish()
